@@ -62,7 +62,20 @@ SignStable(p, q) == \/ \A i \in 1..Len(p) : IsFin(p[i].v[q]) => Le(Zero, p[i].v[
                     \/ \A i \in 1..Len(p) : IsFin(p[i].v[q]) => Le(p[i].v[q], Zero)
 IsUnc(q) == q \in {"unc0L", "unc1L", "unc2L"}
 Smooth(p, q) == IsUnc(q) => \A c \in {"amu1L", "amu2L"} \cap DOMAIN p[1].v : SignStable(p, c)
-Band(p, q) == (Usable(p, q) /\ Smooth(p, q)) => \A i \in 2..(NPts - 1) : InBand(p, q, i)
+\* The MSSM two-loop fermion/sfermion logarithms use m_SUSY = min(|M1|, |M2|, |mu|, m_L, m_E) (Eq.(6.5) arXiv:1311.1775,
+\* log_scale): where the moved parameter takes over the minimum the two-loop results have the kink of min(.) by
+\* definition.  log_scale itself is logged; the band is asserted for the quantities built on it on paths where
+\* log_scale follows its own chord (to 1e-6), i.e. where the minimum does not change hands.
+ScaleDependent(q) == q \in {"amu2L", "amu2L_nr", "amu2LFSfapprox", "amu2LFSfapprox_nr", "amu2LWHnu", "amu2LWHmuL", "amu2LBHmuL",
+                            "amu2LBHmuR", "amu2LBmuLmuR", "unc0L", "unc1L", "unc2L"}
+OnChord(p, q, i, tolDen) ==
+  LET vm == p[1].v[q]   vp == p[NPts].v[q]
+      h2 == Sub(p[NPts].d, p[1].d)
+      lhs == Abs(Sub(Mul(h2, Sub(p[i].v[q], vm)), Mul(Sub(vp, vm), Sub(p[i].d, p[1].d))))
+  IN IsFin(p[i].v[q]) => Le(Mul(tolDen, lhs), Mul(Scale(p, q), h2))
+NoKinkOfMin(p, q) == (ScaleDependent(q) /\ "log_scale" \in DOMAIN p[1].v /\ AllFinite(p, "log_scale"))
+                        => \A i \in 2..(NPts - 1) : OnChord(p, "log_scale", i, TenPow(6))
+Band(p, q) == (Usable(p, q) /\ Smooth(p, q) /\ NoKinkOfMin(p, q)) => \A i \in 2..(NPts - 1) : InBand(p, q, i)
 
 \* sequence of the names of a record's domain (any order)
 RECURSIVE SetToSeq(_)
